@@ -9,6 +9,9 @@ for name in sorted(os.listdir(os.path.join(HERE, 'controls'))):
     if not os.path.isdir(d):
         continue
     meta = json.load(open(os.path.join(d, 'meta.json')))
+    if meta.get('skip_in_batch'):
+        print(name, 'EXCLUDED (see meta.json)', flush=True)
+        continue
     p = subprocess.run([sys.executable, os.path.join(HERE, 'tools_refactor.py'), d, meta['property']], capture_output=True, text=True)
     try:
         out = json.loads(p.stdout)
